@@ -64,6 +64,7 @@ Options ==
 Go(k) ==
   /\ pc = "idle" /\ Room /\ k \in {"def", "misc", "stmt", "fault"}
   /\ (k = "stmt" => (PType = PT_GRAPHS => rd.gopen))
+  /\ (k = "stmt" => AllowGen \/ DOMAIN rd.names # {} \/ "p" \in DOMAIN rd.prev)   \* a predicate IRI must be expressible
   /\ (k = "fault" => Faults # {} /\ violated = "" /\ Len(hist) >= FaultAt)
   /\ pc' = k
   /\ cur' = IF k = "stmt"
